@@ -22,7 +22,7 @@ pub fn vp_takeref_read_until<'a, R: Read>(t: &mut TakeRef<'a, R>, d: u8, b: &mut
     r
 }
 /// body VERIFIED: the `Take` over the borrowed reader lives across the loop (R12: TakeRef), every `read_until` is the std model
-//@@ fn src/parsing/buffers.rs - read_line_strict props=C04,C05,C19 vattr=loop_isolation(false);rlimit(50)
+//@@ fn src/parsing/buffers.rs - read_line_strict props=C04,C05,C19 vattr=loop_isolation(false);rlimit(300)
 //@@ rw R12
 reader.take(max_buf_len)
 //@@ =>
@@ -79,7 +79,7 @@ n += k
 return Err(io::ErrorKind::UnexpectedEof.into());
 //@@ with
             proof {
-                if max_buf_len == 16384 && ff0 && strict_line(w0) is Some {
+                if max_buf_len == HEAD_LINE_MAX && ff0 && strict_line(w0) is Some {
                     head_lemmas::lemma_first_crlf_props(w0);
                     let i = first_crlf(w0);
                     assert(i >= n0);
@@ -104,10 +104,10 @@ loop
         is_suffix(wire(final(reader)), wire(old(reader))), // id: wire_only_advances [C04]
         fault_free(old(reader)) ==> fault_free(final(reader)),
         wrote(final(reader)) == wrote(old(reader)), origin(final(reader)) == origin(old(reader)),
-        max_buf_len == 16384 ==> (res matches Ok(n) ==> strict_line(wire(old(reader))) == Some((final(buf)@, n as int)) && n >= 2 && n <= wire(old(reader)).len() // id: line_ends_at_first_crlf [C04,C19]
+        max_buf_len == HEAD_LINE_MAX ==> (res matches Ok(n) ==> strict_line(wire(old(reader))) == Some((final(buf)@, n as int)) && n >= 2 && n <= wire(old(reader)).len() // id: line_ends_at_first_crlf [C04,C19]
                     && wire(final(reader)) == wire(old(reader)).skip(n as int) && final(buf)@.len() == n - 2),
         final(buf)@.len() <= max_buf_len, // id: header_line_buffer_capped [C05]
-        max_buf_len == 16384 && fault_free(old(reader)) && strict_line(wire(old(reader))) is Some ==> res is Ok, // id: complete_header_line_is_returned [C19]
+        max_buf_len == HEAD_LINE_MAX && fault_free(old(reader)) && strict_line(wire(old(reader))) is Some ==> res is Ok, // id: complete_header_line_is_returned [C19]
 //@@ end
 
 //@@ fn src/parsing/buffers.rs - trim_byte props=C04,C05
